@@ -6,7 +6,11 @@
     specifiers): one request per import or re-export, in order, whose resolved_path is ModulePath::resolve(specifier, resolve_base)
     (resolve itself is C18's kernel: here an uninterpreted function) and whose importer is the importer given.
     Statements here are not type-only; the type_only flag is C03's kernel K3.
-Evaluation order, exactly-once execution and live bindings are outside the claim (they are the larger part of the property).
+(3) Interpreter::resolve_module_specifier (bind-time resolution inside a running module body) uses the module being executed as base,
+    the entry module only when there is none: the base collect_import_requests_internal was given for the same specifier.
+Replay route: three graphs (nested directories, diamond with a shared counter, re-exported live binding) through the public API under
+three supply orders (as asked, reversed, one module per round).
+Evaluation order, exactly-once execution and live bindings in general are outside the symbolic claim.
 """
 import itertools
 import json
@@ -189,6 +193,134 @@ def str_is(s, lit):
     return all(z3.is_bv_value(z3.simplify(b)) and z3.simplify(b).as_long() == c for b, c in zip(s.bytes, lit))
 
 
+GRAPHS = [
+    # (name, entry, modules, expected result)  - nested directories: a dependency's own relative imports resolve against ITS directory
+    ('nested', '/d/main.ts', {
+        '/d/main.ts': 'import { u } from "./util.ts"; import { a } from "./lib/a.ts"; u + ":" + a',
+        '/d/util.ts': 'export const u = "top";',
+        '/d/lib/a.ts': 'import { u } from "./util.ts"; import { s } from "../shared.ts"; export const a = u + "+" + s;',
+        '/d/lib/util.ts': 'export const u = "lib";',
+        '/d/shared.ts': 'export const s = "shared";'}, 'top:lib+shared'),
+    # diamond: the shared module is reached under two spellings; its body must run exactly once (sibling order is not fixed by C09)
+    ('diamond', '/d/main.ts', {
+        '/d/main.ts': 'import { b } from "./b.ts"; import { c } from "./c.ts"; b + "|" + c + "|" + globalThis.__dRuns',
+        '/d/b.ts': 'import { d } from "./sub/d.ts"; export const b = "b" + d;',
+        '/d/c.ts': 'import { d } from "./sub/../sub/d.ts"; export const c = "c" + d;',
+        '/d/sub/d.ts': 'globalThis.__dRuns = (globalThis.__dRuns || 0) + 1; export const d = "d";'}, 'bd|cd|1'),
+    ('reexport', '/d/main.ts', {
+        '/d/main.ts': 'import { x, inc } from "./re.ts"; inc(); inc(); x',
+        '/d/re.ts': 'export { x, inc } from "./deep/impl.ts";',
+        '/d/deep/impl.ts': 'export let x = 1; export function inc() { x++ }'}, 3.0),
+]
+
+
+def check_graphs(rep):
+    """replay route: whole graphs through the public API under three supply orders"""
+    cmds = []
+    for name, entry, mods, want in GRAPHS:
+        for order, batch in (('forward', 'all'), ('reverse', 'all'), ('forward', 'one')):
+            cmds.append({'cmd': 'module_graph', 'entry': entry, 'modules': mods, 'order': order, 'batch': batch})
+    outs = driver.replay(cmds)
+    k = 0
+    for name, entry, mods, want in GRAPHS:
+        for order, batch in (('forward', 'all'), ('reverse', 'all'), ('forward', 'one')):
+            o = outs[k]
+            k += 1
+            rep.validated += 1
+            got = o.get('outcome', {})
+            val = got.get('complete', {}).get('v', got.get('complete', {}).get('repr')) if isinstance(got, dict) and 'complete' in got else None
+            if isinstance(val, str) and isinstance(want, float):
+                try:
+                    val = float(val)
+                except ValueError:
+                    pass
+            seen = {}
+            dup = None
+            for rnd in o.get('rounds', []):
+                for rq in rnd:
+                    if batch == 'all' and rq['resolved'] in seen:
+                        dup = rq['resolved']
+                    seen[rq['resolved']] = 1
+                    if rq['resolved'] not in mods:
+                        dup = dup or ('non-canonical path ' + rq['resolved'])
+            if val != want or dup:
+                p = rep.write_replay('graph-%s' % name, dict(cmds[k - 1], expected=want, observed=o))
+                rep.violation('C09/graph/%s' % name, 'module graph %r supplied %s/%s: outcome %r (expected %r)%s' % (
+                    name, order, batch, got, want, '; requested twice or non-canonically: %s' % dup if dup else ''), p)
+    rep.sample({'kernel': 'module graphs through the public API', 'graphs': len(GRAPHS), 'supply_orders': 3})
+
+
+def check_resolve_base(rep, cross):
+    """(3) Interpreter::resolve_module_specifier - used when a module body binds its imports and re-exports - resolves against the module
+    that is being executed (current_module_path) and only without one against the entry module: the same base that
+    collect_import_requests_internal was given when the request for that specifier was issued."""
+    ex = common.executor(unwind=3, str_cap=2)
+    F = {n: i for i, n in enumerate(ex.src.structs['Interpreter'])}
+    for need in ('current_module_path', 'main_module_path'):
+        if need not in F:
+            raise driver.Inconclusive('Interpreter.%s not found (renamed?)' % need)
+
+    def h_resolve(e, s, c):
+        s.event('resolve', c.args[0], c.args[1])
+        e.havoc_used.add('ModulePath::resolve (uninterpreted here; C18 decides it)')
+        return e.ret(s, c, Agg('struct', 'ModulePath', {0: Opaque('resolved')}))
+    ex.overrides.append((re.compile(r'^ModulePath::resolve$'), h_resolve))
+    fn = common.fn_name(ex, 'Interpreter', 'resolve_module_specifier')
+    st = State()
+    dc = z3.BitVec('current_is_some', 64)
+    dm = z3.BitVec('main_is_some', 64)
+    st.assume(z3.ULT(dc, 2))
+    st.assume(z3.ULT(dm, 2))
+    cur = EnumV('Option<ModulePath>', dc, {1: {0: Agg('struct', 'ModulePath', {0: Opaque('CURRENT')})}})
+    main = EnumV('Option<ModulePath>', dm, {1: {0: Agg('struct', 'ModulePath', {0: Opaque('MAIN')})}})
+    a = st.alloc(Agg('struct', 'Interpreter', {F['current_module_path']: cur, F['main_module_path']: main}, lazy=True))
+    spec = ex.fresh_str(st, 2, 'spec')
+    ex.call_function(st, fn, [Ref(a), spec])
+    ends = ex.run(st)
+    if not common.require_clean(rep, ends, 'resolve_module_specifier'):
+        return
+    n = 0
+    for k, e in enumerate(ends):
+        evs = [x for x in e.st.events if x[0] == 'resolve']
+        if len(evs) != 1:
+            rep.inconc('resolve_module_specifier path %d: %d calls of ModulePath::resolve' % (k, len(evs)))
+            continue
+        n += 1
+        base = evs[0][2]
+        # which base was passed?  None / a reference into the current_module_path / the main_module_path field of the interpreter
+        if not isinstance(base, EnumV):
+            rep.inconc('resolve_module_specifier path %d: base of unexpected shape %r' % (k, base))
+            continue
+        bd = base.discr_expr()
+        fld = None
+        pl = base.payload.get(1, {}).get(0)
+        if isinstance(pl, Ref) and pl.addr == a and pl.path and pl.path[0][0] == 'f':
+            fld = pl.path[0][1]
+        used = {F['current_module_path']: 'CURRENT', F['main_module_path']: 'MAIN'}.get(fld, 'none' if fld is None else '?')
+        is_cur = z3.BoolVal(fld == F['current_module_path'])
+        is_main = z3.BoolVal(fld == F['main_module_path'])
+        goal = z3.And(z3.Implies(dc == 1, z3.And(bd == 1, is_cur)),
+                      z3.Implies(z3.And(dc == 0, dm == 1), z3.And(bd == 1, is_main)),
+                      z3.Implies(z3.And(dc == 0, dm == 0), bd == 0))
+        r, m = ex.check_sat_pc(e.st.pc, [z3.Not(goal)])
+        what = 'resolve_module_specifier path %d: the base is the module being executed, else the entry module, else none' % k
+        rep.obligation(what, r, 'any specifier; both paths present or absent', 0.0)
+        if r == 'unsat':
+            pass
+        elif not rep.seen('C09/resolve_module_specifier/wrong-base'):
+            cs, ms = m.eval(dc, model_completion=True).as_long(), m.eval(dm, model_completion=True).as_long()
+            outs = driver.replay([{'cmd': 'module_graph', 'entry': g[1], 'modules': g[2], 'order': 'forward', 'batch': 'all'} for g in GRAPHS[:1]])
+            rep.validated += 1
+            p = rep.write_replay('resolve-base', {'cmd': 'module_graph', 'entry': GRAPHS[0][1], 'modules': GRAPHS[0][2], 'order': 'forward', 'batch': 'all',
+                                                  'expected': GRAPHS[0][3], 'observed': outs[0]})
+            rep.violation('C09/resolve_module_specifier/wrong-base',
+                          'resolve_module_specifier resolves against %s when current_module_path is %s and main_module_path is %s; nested graph through the API: %r' % (
+                              used, 'set' if cs else 'unset', 'set' if ms else 'unset', outs[0].get('outcome')), p)
+    rep.vacuity.append('resolve_module_specifier: %d paths with one resolve call' % n)
+    rep.sample({'kernel': 'resolve_module_specifier base', 'paths': n})
+    rep.absorb(ex)
+
+
 def run(rep):
     b = BOUNDS[rep.tier]
     rep.bounds = dict(requests_max=b['reqs'], statements_max=b['stmts'], paths='symbolic, 1 byte over {a,b} (only equality matters)')
@@ -204,14 +336,22 @@ def run(rep):
     if got != ['/d/a.ts', '/d/b.ts']:
         p = rep.write_replay('need-imports', {'cmd': 'eval', 'src': src, 'path': '/d/main.ts', 'observed': o})
         rep.violation('C09/need-imports/concrete', 'NeedImports for %r lists %r, expected one canonical request per file' % (src, got), p)
+    check_graphs(rep)
     check_dedupe(rep, cross)
     check_collect(rep, cross)
+    check_resolve_base(rep, cross)
     rep.cross = driver.cross_check(cross, 300, 'ALL', rep.tier, rep.seed)
     rep.extra['cross_checked_obligations'] = len(cross)
 
 
 def replay_file(path):
     d = json.load(open(path))
+    if d.get('cmd') == 'module_graph':
+        o = driver.replay([{k: d[k] for k in ('cmd', 'entry', 'modules', 'order', 'batch') if k in d}])[0]
+        print(json.dumps(o))
+        got = o.get('outcome', {})
+        val = got.get('complete', {}).get('v', got.get('complete', {}).get('repr')) if isinstance(got, dict) and 'complete' in got else None
+        return 0 if str(val) == str(d.get('expected')) else 1
     o = driver.replay([{'cmd': 'eval', 'src': d['src'], 'path': d.get('path')}])[0]
     print(json.dumps(o))
     return 0
